@@ -171,6 +171,7 @@ pub fn msg_class(m: &str) -> Option<String> {
     else if m.starts_with("Rule editing is not supported") { "noedit".into() }
     else if m == "No indexes." { "noindex".into() }
     else if m.starts_with("Granted '") { "granted".into() }
+    else if m.starts_with("Cannot insert variable") || m.starts_with("Cannot insert placeholder") { "badterm".into() }
     else if m.starts_with("Revoked access") { "revoked".into() }
     else if m.starts_with("No ACL entries for") || m.starts_with("ACL entries for") { "acllist".into() }
     else { format!("msg?{}", m.chars().take(40).collect::<String>().replace(' ', "_")) })
@@ -195,6 +196,7 @@ pub fn err_class(e: &str) -> String {
     else if e.starts_with("Failed to parse query") { "queryparse".into() }
     else if e.starts_with("Query execution failed") { "queryfail".into() }
     else if e.starts_with("No ACL entry found") { "noacl".into() }
+    else if e.starts_with("Cannot insert variable") || e.starts_with("Cannot insert placeholder") { "badterm".into() }
     else if e.starts_with("Session ") && e.ends_with("not found") { "sessiongone".into() }
     else { format!("err?{}", e.chars().take(60).collect::<String>().replace(' ', "_")) }
 }
@@ -247,7 +249,11 @@ pub fn describe(st: &Statement) -> String {
             DeletePattern::SingleTuple(ts) => match tuple_wire(ts) { Some(t) if name_ok(&op.relation) => format!("{k}/{}/{}", op.relation, t), _ => unsupported },
             _ => unsupported,
         },
-        Statement::Fact(r) => match tuple_wire(&r.head.args) { Some(t) if name_ok(&r.head.relation) => format!("{k}/{}/{}", r.head.relation, t), _ => unsupported },
+        // the relation "name" of a fact can be any text (e.g. a whole-text parse that starts with a `%` line)
+        Statement::Fact(r) => if r.head.args.is_empty() { unsupported } else { match tuple_wire(&r.head.args) {
+            Some(t) => format!("{k}/{}/{}", enc_name(&r.head.relation), t),
+            None => if r.head.args.iter().all(|a| matches!(a, Term::Constant(_) | Term::StringConstant(_) | Term::BoolConstant(_) | Term::Variable(_) | Term::Placeholder)) { format!("{k}/{}/!", enc_name(&r.head.relation)) } else { unsupported },
+        } },
         Statement::SessionRule(r) => if name_ok(&r.head.relation) { format!("{k}/{}", r.head.relation) } else { unsupported },
         Statement::PersistentRule(r) => if name_ok(&r.head.relation) { format!("{k}/{}", r.head.relation) } else { unsupported },
         Statement::Query(q) => {
